@@ -243,11 +243,10 @@ theorem dirleft_core {s s2 : SWorld} {w' : World} (hn : s.nodeDirLeft = false)
   subst h1
   simp only [hn, Bool.false_or, lastOwnerWasPort, Bool.and_eq_true, Bool.not_eq_true'] at hl
   obtain ⟨h2, h3⟩ := hl
-  have h4 : nodeCore { s with w := w',
-      nodeDirLeft := false || lastOwnerWasPort s { s with w := w' } } = false := h3
-  refine ⟨h2, by rw [hn]; exact h4, ?_, ?_⟩
-  · simp only [nodeCore, svcCore, Bool.or_eq_false_iff] at h3; exact h3.1
-  · simp only [nodeCore, svcCore, Bool.or_eq_false_iff] at h3; exact h3.2.1
+  have hnode : s.node = false ∧ s.svc = false := by
+    simp only [nodeCore, svcCore, Bool.or_eq_false_iff] at h3
+    exact ⟨h3.1, h3.2.1⟩
+  exact ⟨h2, h3, hnode.1, hnode.2⟩
 
 theorem dirleft_only_by_port (s : SWorld) (op : SOp) (hn : s.nodeDirLeft = false)
     (hl : (step s op).1.nodeDirLeft = true) :
